@@ -157,7 +157,7 @@ CORPUS = [
 def run(run):
     rng = run.rng
     run.do_ties()
-    quick = run.tier == "quick"
+    quick = run.quick
     reqs = CORPUS + make_requests(rng, 2500 if quick else 120000)
     outcomes = {}
     for profile in ("debug", "release"):
